@@ -17,7 +17,7 @@ import json, os, shutil, subprocess, sys, time
 ENV = dict(os.environ, GOFLAGS='-mod=mod', GOPROXY='off', GOSUMDB='off', GOTOOLCHAIN='local')
 
 def run(cmd, cwd=None, timeout=1800):
-    p = subprocess.run(cmd, cwd=cwd, env=ENV, shell=isinstance(cmd, str), capture_output=True, text=True, timeout=timeout)
+    p = subprocess.run(cmd, cwd=cwd, env=ENV, shell=isinstance(cmd, str), capture_output=True, text=True, errors='replace', timeout=timeout)
     return p.returncode, (p.stdout + p.stderr)
 
 def main():
